@@ -8,7 +8,7 @@
    use.  Not proved (tested by the oracle, see evidence tested_only): the face/basis counts and
    closedness (each simplex of order k has k+1 faces of order k-1 and a basis of k+1 points). *)
 From Coq Require Import String ZArith Bool Arith List.
-From SV Require Import Names NamesFacts ListFacts Rep Fresh Complex Atomic RepInv Reach Homology Filtration Gen World Small Sweeps Shapes AddEffect Closed ClosedReach.
+From SV Require Import Names NamesFacts ListFacts Rep Fresh Complex Atomic RepInv Reach Homology Filtration Gen World Small Sweeps Shapes AddEffect Closed ClosedReach VInv AwbSpec VReach.
 Import ListNotations.
 
 (* the invariant holds after any sequence of add / relabel / delete requests on the representation,
@@ -122,3 +122,21 @@ Print Assumptions C01_every_simplex_has_its_faces.
 Theorem C01_delete_keeps_closed : forall r s r' x, cinv r -> deleteSimplex r s = (r', x) -> cinv r'.
 Proof. exact deleteSimplex_cinv. Qed.
 Print Assumptions C01_delete_keeps_closed.
+
+(* THE VERTEX-SET READING, EVERY IN-CONTRACT HISTORY (add points, add by a duplicate-free basis of at
+   least two names, delete a simplex / by basis / several, restrict, rename one simplex or many, in
+   any order): the invariant vinv = closed + "basis = union of the faces' bases" + "a simplex of order
+   k has exactly k+1 basis points" + "no two simplices have the same basis" holds at every point *)
+Theorem C01_vertex_set_reading_at_every_point : forall uid ops, vinv (fold_left vstep ops (empty_rep uid)).
+Proof. exact vertex_set_reading_at_every_point. Qed.
+Print Assumptions C01_vertex_set_reading_at_every_point.
+(* ... in the words of the property: a simplex of order k is a set of exactly k+1 distinct points of
+   the complex, and a set of points names at most one simplex *)
+Theorem C01_a_simplex_is_its_basis :
+  forall r, vinv r ->
+  (forall t k, orderOf r t = Ok k -> NoDup (basisOf r t) /\ length (basisOf r t) = S k /\
+               forall p, In p (basisOf r t) -> orderOf r p = Ok 0) /\
+  (forall t u, containsSimplex r t = true -> containsSimplex r u = true ->
+               (forall p, In p (basisOf r t) <-> In p (basisOf r u)) -> t = u).
+Proof. exact a_simplex_is_its_basis. Qed.
+Print Assumptions C01_a_simplex_is_its_basis.
